@@ -290,7 +290,12 @@ func (sesh *Session) closeSession() error {
 		log.Debugf("session %v has already been closed", sesh.id)
 		return errRepeatSessionClosing
 	}
+	sesh.closeStreams()
+	return nil
+}
 
+// closeStreams closes the accept queue and every open stream of a session whose closed flag has just been set
+func (sesh *Session) closeStreams() {
 	sesh.streamsM.Lock()
 	close(sesh.acceptCh)
 	for id, stream := range sesh.streams {
@@ -301,7 +306,6 @@ func (sesh *Session) closeSession() error {
 		}
 	}
 	sesh.streamsM.Unlock()
-	return nil
 }
 
 func (sesh *Session) passiveClose() error {
@@ -321,6 +325,11 @@ func (sesh *Session) Close() error {
 	if err != nil {
 		return err
 	}
+	return sesh.notifyAndCloseAll()
+}
+
+// notifyAndCloseAll tells the remote to close the session and closes the connection pool
+func (sesh *Session) notifyAndCloseAll() error {
 	// whether or not the notice below can be sent, the connections must not outlive the session
 	defer sesh.sb.closeAll()
 	// we send a notice frame telling remote to close the session
@@ -355,10 +364,16 @@ func (sesh *Session) IsClosed() bool {
 }
 
 func (sesh *Session) checkTimeout() {
-	if sesh.streamCount() == 0 && !sesh.IsClosed() {
+	// Deciding that the session is idle and marking it closed must be one step with respect to stream
+	// creation, which checks the closed flag under streamsM; otherwise a stream opened in between is torn down.
+	sesh.streamsM.Lock()
+	timedOut := sesh.streamCount() == 0 && atomic.CompareAndSwapUint32(&sesh.closed, 0, 1)
+	sesh.streamsM.Unlock()
+	if timedOut {
 		verifhook.At("sesh.timeout.decided")
 		sesh.SetTerminalMsg("timeout")
-		sesh.Close()
+		sesh.closeStreams()
+		sesh.notifyAndCloseAll()
 	}
 }
 
